@@ -6,10 +6,11 @@ using namespace c11;
 
 static const double EPS_F = 1.1920928955078125e-07;
 
-// Calibrated bounds, in units of eps_float * max(pi, |arguments|); worst ratios observed are in evidence/C11.json
-static const double C_ANGLEMOD = 8;   // congruence; worst 0.39 (float: 2*pi rounded to float, times the number of periods)
-static const double C_NEAR_ROT = 16;  // rotation unchanged; worst 1.3
-static const double C_NEAR_ANG = 16;  // every angle within pi (+ this) of the target; worst 0.6
+// Calibrated bounds, in units of eps_float * max(pi, |arguments|).  Worst ratios on the unchanged tree
+// (thorough tier, seed 1, 10^8 angleMod / 4.8*10^7 makeNear-family cases per type; recorded in the evidence on every run):
+static const double C_ANGLEMOD = 8;  // congruence: 0.318 (double) / 0.467 (float: 2*pi rounded to float, times the number of periods)
+static const double C_NEAR_ROT = 48; // rotation unchanged: 0.80 / 4.01; component congruence of simpleXYZRotation 0.318 / 1.42
+static const double C_NEAR_ANG = 16; // |angle - target| - pi: 0.233 / 0.561
 
 // ------------------------------------------------------------------ angleMod
 template <class T>
@@ -95,10 +96,11 @@ sub_angle_mod (Ctx& c, uint64_t idx)
     c.worst (("angleMod." + tn + ".congruence_epsf").c_str (), d, idx, desc);
     if (!(d <= C_ANGLEMOD)) c.fail ("angleMod." + tn + ":not_congruent_mod_2pi", idx, desc);
     if ((idx & 0xffff) < 16) c.sample (cl, desc);
+    if (c.verbose) std::fprintf (stderr, "[replay] %s\n", desc ().c_str ());
 }
 static const std::vector<std::string> REQ_ANGLEMOD = {"within_pm_pi", "several_periods", "near_odd_multiple_of_pi", "pi_plus_minus_ulps", "multiple_of_two_pi_plus_minus_ulps", "tiny", "zero", "many_periods", "quarter_turn_multiples"};
-MON_SUB_IDX (sub_angle_mod<double>, "angle_mod_double", 2000000, 100000000).req (REQ_ANGLEMOD).over ("Euler<double>::angleMod on angles in [-pi,pi], +-4 periods, +-1000 periods, odd multiples of pi +- 1e-k, +-pi +- 4 ulps, multiples of 2pi +- ulps, tiny, +-0");
-MON_SUB_IDX (sub_angle_mod<float>, "angle_mod_float", 2000000, 100000000).req (REQ_ANGLEMOD).over ("same for Euler<float>::angleMod");
+MON_SUB_IDX (sub_angle_mod<double>, "angle_mod_double", 8000000, 100000000).req (REQ_ANGLEMOD).over ("Euler<double>::angleMod on angles in [-pi,pi], +-4 periods, +-1000 periods, odd multiples of pi +- 1e-k, +-pi +- 4 ulps, multiples of 2pi +- ulps, tiny, +-0");
+MON_SUB_IDX (sub_angle_mod<float>, "angle_mod_float", 8000000, 100000000).req (REQ_ANGLEMOD).over ("same for Euler<float>::angleMod");
 
 // ------------------------------------------------------------------ simpleXYZRotation / nearestRotation / makeNear
 // Six non-repeated static orders.  "xyz" vectors hold the angle about X in .x etc.; the represented
@@ -261,11 +263,12 @@ sub_near (Ctx& c, uint64_t idx)
         c.cls (dsame < 1e-3L ? "kept_solution" : "took_flipped_solution");
     }
     if ((idx & 0xffff) < 192) c.sample ((std::string (fname) + "_" + cl).c_str (), desc);
+    if (c.verbose) std::fprintf (stderr, "[replay] %s\n", desc ().c_str ());
 }
 static const std::vector<std::string> REQ_NEAR = concat (
     order_class_names (true),
     {"fn_simpleXYZRotation", "fn_nearestRotation", "fn_makeNear", "makeNear_same_order_target", "makeNear_other_order_target", "both_within_pm_pi", "several_periods_apart", "difference_near_odd_multiple_of_pi", "target_near_flipped_solution", "target_close_plus_periods", "quarter_turn_multiples", "kept_solution", "took_flipped_solution"});
-MON_SUB_IDX (sub_near<double>, "make_near_double", 6 * 4 * 8 * 5000, 6 * 4 * 8 * 250000)
+MON_SUB_IDX (sub_near<double>, "make_near_double", 6 * 4 * 8 * 20000, 6 * 4 * 8 * 250000)
     .req (REQ_NEAR)
     .over ("6 non-repeated static orders x {simpleXYZRotation, nearestRotation, makeNear(same order), makeNear(target of any order)} x 8 (angles, target) classes over +-4 periods incl. differences at odd multiples of pi +- 1e-k and targets next to the flipped solution");
-MON_SUB_IDX (sub_near<float>, "make_near_float", 6 * 4 * 8 * 5000, 6 * 4 * 8 * 250000).req (REQ_NEAR).over ("same for Euler<float>");
+MON_SUB_IDX (sub_near<float>, "make_near_float", 6 * 4 * 8 * 20000, 6 * 4 * 8 * 250000).req (REQ_NEAR).over ("same for Euler<float>");
